@@ -92,3 +92,38 @@ let out_nlist l = "L:" ^ String.concat "," (List.map (fun n -> string_of_int (in
 let iter_err_s = function ItemNotFound -> "E:IterItemNotFound" | MultipleItemsFound -> "E:IterMultipleItemsFound"
 let out_num n = "N:" ^ string_of_int (int_of_n n)
 let out_sum = function Inl n -> out_num n | Inr e -> iter_err_s e
+
+(* bytes <-> list N *)
+let bytes_of_hex (h : string) : n list =
+  let s = unhex h in List.init (String.length s) (fun i -> n_of_int (Char.code s.[i]))
+let hex_of_bytes (l : n list) : string =
+  String.concat "" (List.map (fun b -> Printf.sprintf "%02x" (int_of_n b)) l)
+(* Z -> decimal string (values up to 2^64 need more than OCaml's int: go through Int64 unsigned) *)
+let rec u64_of_pos = function
+  | XH -> 1L
+  | XO p -> Int64.shift_left (u64_of_pos p) 1
+  | XI p -> Int64.logor (Int64.shift_left (u64_of_pos p) 1) 1L
+let string_of_z = function
+  | Z0 -> "0"
+  | Zpos p -> Printf.sprintf "%Lu" (u64_of_pos p)
+  | Zneg p -> "-" ^ Printf.sprintf "%Lu" (u64_of_pos p)
+let z_of_ustring (s : string) : z =
+  let x = Int64.of_string ("0u" ^ s) in
+  if Int64.equal x 0L then Z0 else Zpos (pos_of_u64 x)
+let parse_rops (s : string) : rop list =
+  if s = "" then [] else
+  List.map (fun t ->
+      match t.[0] with
+      | 'r' -> RRead (nat_of_int (int_of_string (String.sub t 1 (String.length t - 1))))
+      | 's' ->
+          let v = String.sub t 2 (String.length t - 2) in
+          (match t.[1] with
+           | 'S' -> RSeek (SeekStart (z_of_ustring v))
+           | 'C' -> RSeek (SeekCurrent (z_of_string v))
+           | _ -> RSeek (SeekEnd (z_of_string v)))
+      | _ -> failwith "rop") (String.split_on_char ',' s)
+let rres_s = function RBytes b -> "b" ^ hex_of_bytes b | RPos p -> "p" ^ string_of_z p | RInvalidInput -> "inv"
+let parse_wops (s : string) : wop list =
+  if s = "" then [] else
+  List.map (fun t -> if t = "f" then WFlush else WWrite (bytes_of_hex (String.sub t 1 (String.length t - 1))))
+    (String.split_on_char ',' s)
